@@ -195,7 +195,7 @@ pub fn rand_select(r: &mut R, tabs: &[Tab], allow_join: bool) -> Select {
     let mut s = Select { from, wher, has_where, agg: false, group: vec![], proj: vec![], distinct: false, order: vec![], limit: -1, offset: 0, full_parens: r.random_range(0..5) == 0 };
     let shape = r.random_range(0..10);
     if shape < 3 {
-        // aggregates, optionally grouped (no ORDER BY with GROUP BY, no HAVING: recorded findings)
+        // aggregates, optionally grouped (no HAVING: recorded finding)
         s.agg = true;
         let grouped = r.random_bool(0.6);
         if grouped {
@@ -214,6 +214,12 @@ pub fn rand_select(r: &mut R, tabs: &[Tab], allow_join: bool) -> Select {
                 _ => { col_of(r, &sc, &[Ty::Int, Ty::Text]) }
             };
             s.proj.push(Proj::Agg(f, arg));
+        }
+        // ORDER BY over items of the select list (group columns or aggregates), sometimes with LIMIT
+        if r.random_range(0..10) < 4 {
+            let i = r.random_range(1..=s.proj.len());
+            s.order.push((i, r.random_bool(0.6)));
+            if r.random_bool(0.3) { s.limit = r.random_range(1..4); }
         }
     } else {
         let n = r.random_range(1..4);
